@@ -40,7 +40,7 @@ func (c14) Gates(tier string, m map[string]int64) []rt.Gate {
 	for _, f := range []string{"operand-type", "non-boolean-where", "non-boolean-not", "forbidden-keyword", "unknown-function", "arity"} {
 		gs = append(gs, rt.GateMin("fault kind "+f, m, "fault:"+f, 50))
 	}
-	for _, p := range []string{"top", "under-not", "call-arg", "in-item", "between-bound", "select-field", "aggregate-arg", "put", "remove", "delete", "and-or-operand", "under-index", "folded-away-operand", "duplicate-name"} {
+	for _, p := range []string{"top", "under-not", "call-arg", "in-item", "between-bound", "select-field", "aggregate-arg", "put", "remove", "delete", "and-or-operand", "under-index", "folded-away-operand", "duplicate-name", "name-chain", "nested-in-list-item"} {
 		gs = append(gs, rt.GateMin("fault position "+p, m, "pos:"+p, 20))
 	}
 	return gs
@@ -155,6 +155,17 @@ func (k c14) positive(c *rt.Ctx, st *gen.Store) {
 			"select key, strlen(key) + 1 as w, lower(value) as w where w between 0 and 100",
 		}[r.Intn(4)]
 		rec.Inc("duplicate_name_first_field_decides")
+	} else if r.Chance(1, 15) {
+		// a field defined through another field's name, used by the filter: its type is only
+		// known once the inner name is resolved
+		q = []string{
+			"select key as a, a + 'x' as b where b = 'k1x' | b ^= 'k'",
+			"select key as a, a + 'x' as b, value where b in ('bx', 'cx') | b between 'a' and 'z'",
+			"select value as v0, v0 + ':' + key as c where !(c >= 'b') | c + 'y' != 'q'",
+			"select strlen(key) as n, n * 2 as m, key where m >= 2 & m between 0 and 100",
+			"select key as a, upper(a) as u, u + a as w where w != 'x' & strlen(w) > 0",
+		}[r.Intn(5)]
+		rec.Inc("name_chain_in_where")
 	}
 	rec.DistinctS(q)
 	for _, m := range []drive.Mode{{Batch: false, Size: pickBatch(c), Cache: true}, {Batch: true, Size: pickBatch(c), Cache: true}} {
@@ -202,7 +213,7 @@ func (k c14) negative(c *rt.Ctx, st *gen.Store) {
 	g.NoAlias = true
 	K, V := gen.Key, gen.Value
 	var q, fault, pos string
-	place := r.Intn(18)
+	place := r.Intn(20)
 	sel := func(field, where string) string { return "select " + field + " where " + where }
 	switch place {
 	case 0: // top: non-Boolean WHERE
@@ -354,6 +365,33 @@ func (k c14) negative(c *rt.Ctx, st *gen.Store) {
 			q = "select key as k1, upper(join('-', k1, " + fn + ")) as u where true"
 		}
 		fault, pos = f, "call-arg"
+	case 17: // a field defined through another field's name, misused by the filter
+		q = []string{
+			"select key as a, a + 'x' as b where b > 1",
+			"select key as a, a + 'x' as b where b between 1 and 2",
+			"select key as a, a + 'x' as b, value where strlen(value) >= b",
+			"select value as v0, v0 + ':' + key as c where !(c = 1)",
+			"select strlen(key) as n, n * 2 as m where m ^= 'k'",
+			"select key as a, upper(a) as u, u + a as w where w * 2 > 1",
+		}[r.Intn(6)]
+		fault, pos = "operand-type", "name-chain"
+	case 18: // unknown function / wrong argument count nested below an IN item or a BETWEEN bound
+		bad := []string{"upper('c', 'd')", "nosuch('x')", "lower(upper('b', 'c'))", "upper(nosuch2('x'))", "str(int(value, 2))", "join()"}[r.Intn(6)]
+		fault = "arity"
+		if strings.Contains(bad, "nosuch") {
+			fault = "unknown-function"
+		}
+		switch r.Intn(4) {
+		case 0:
+			q = sel("*", "key in ('a', 'b' + "+bad+")")
+		case 1:
+			q = sel("key, value", "key between 'a' and 'b' + "+bad)
+		case 2:
+			q = sel("*", "!(key in ('a', lower("+bad+"), 'c'))")
+		default:
+			q = "delete where key in ('a', upper(" + bad + "))"
+		}
+		pos = "nested-in-list-item"
 	case 16: // the name of two fields of different types means the first one
 		q = []string{
 			"select upper(key) as v, strlen(key) as v where v > 1",
